@@ -213,6 +213,8 @@ type Op struct {
 	FP    []byte
 	Raw   []string // protocol lines computed at execution time (facts)
 	Sites []PatchSite
+	Cli       *CliOp // C15: one siftool invocation
+	CliExists bool   // the image file existed before it
 	IO    bool // C09: the model is asked for the operation's I/O plan (`io` lines)
 	// filled in by the executor
 	Now int64
@@ -305,6 +307,8 @@ func (o *Op) lines0() []string {
 			ls = append(ls, fmt.Sprintf("blob h=%s now=%d", hx(b), now))
 		}
 		return ls
+	case "cli":
+		return []string{o.Cli.line(o.CliExists, o.Now, o.Rnd)}
 	case "resign":
 		// seen by the model as: add a signature object holding the blob, under the given fingerprint
 		if len(o.Blobs) != 1 {
